@@ -307,7 +307,8 @@ def run(ctx):
         ctx.ev()
         if not w.hello.get("ready"):
             ok_import = False
-            ctx.violation("python-import-failed:%s" % ("ndarray-of-fixed-vector-annotation" if "Too many arguments for numpy.ndarray" in str(w.hello.get("error")) else "other"),
+            from vlib.rt import py_import_errclass
+            ctx.violation("python-import-failed:%s" % (py_import_errclass(w.hello.get("error"))[1:] or "other"),
                           "%s: %s" % (key, w.hello.get("error")), {"case_dir": root})
         else:
             res = w.cmd({"op": "construct"})
